@@ -22,12 +22,26 @@ pub fn msg_str(m: &Msg) -> String {
     }
 }
 
-pub fn frombuf_str(buf: &[u8]) -> String {
+fn frombuf_at(buf: &[u8]) -> String {
     match catch(|| Msg::from_buf(buf).map(|(m, n)| format!("OK {} {}", n, msg_str(&m)))) {
         None => "PANIC".to_string(),
         Some(Err(_)) => "ERR".to_string(),
         Some(Ok(s)) => s,
     }
+}
+
+/// Decoding is a function of the bytes: the same bytes are decoded at every alignment of the
+/// buffer (offsets 0..7 of an 8-aligned allocation); a difference is reported in place of the result.
+pub fn frombuf_str(buf: &[u8]) -> String {
+    let first = frombuf_at(buf);
+    let mut store: Vec<u64> = vec![0; buf.len() / 8 + 3];
+    for off in 0..8usize {
+        let bytes: &mut [u8] = unsafe { std::slice::from_raw_parts_mut(store.as_mut_ptr() as *mut u8, store.len() * 8) };
+        bytes[off..off + buf.len()].copy_from_slice(buf);
+        let r = frombuf_at(&bytes[off..off + buf.len()]);
+        if r != first { return format!("ALIGNMENT-DEPENDENT at-offset-{} {} BUT {}", off, r.replace(' ', "_"), first.replace(' ', "_")); }
+    }
+    first
 }
 
 #[derive(Clone, Debug)]
